@@ -157,6 +157,8 @@ def run(ctx):
             ctx.ob("R-CLS", "name-not-dot-segment", 0x2e not in stem_cls and 0x2e not in ext_cls,
                    "an accepted name is at least '.' + 3 letters with no dot in stem or extension, hence never '.' or '..' nor empty")
 
+    check_join_dot_segments(ctx, f)
+
     # ---- C14.a the check is on every decode path -------------------------------
     checks = {}
     for which in ("skip_opt_in", "take_opt_from"):
@@ -340,3 +342,38 @@ def run(ctx):
         ok = len(cs) == 1 and "SHA256" in K.arg_renders(cs[0])[0] and K.arg_renders(cs[0])[1] == "data"
         ctx.ob("R-FLOW", "DigestAlgorithm::digest=sha256(data)", ok, "DigestAlgorithm::digest is SHA-256 over its argument",
                where=db.loc, detail=K.arg_renders(cs[0]) if cs else None)
+
+
+def check_join_dot_segments(ctx, f):
+    """What Rsync::check_path (hence Rsync::join) rejects as a dot segment is exactly "." and ".." — not, say, every
+    segment that starts with a dot: a manifest may legitimately list ".cer"-like names that the name check accepts."""
+    b = f.body("uri::Rsync::check_path")
+    if b is None:
+        return ctx.missing("R-CLS", "Rsync::check_path", "uri::Rsync::check_path")
+    ctx.saw_fn(b.name)
+    s = K.sym_of(b)
+    target = None
+    for bi, blk in enumerate(b.blocks):
+        for st in blk["stmts"]:
+            if st["s"] == "assign" and st["pl"]["l"] == 0 and "DotSegments" in render(strip_deep(s.rvalue(st["rv"]))):
+                target = bi
+    tests = set()
+    if target is not None:
+        seen, work = set(), [target]
+        while work:
+            x = work.pop()
+            for p in b.preds(x):
+                if p in seen:
+                    continue
+                seen.add(p)
+                t = b.term(p)
+                if t["t"] == "switch":
+                    edge = [("else" if v is None else str(v)) for v, tb in b.switch_edges(p) if tb == x]
+                    tests.add("%s -> %s" % (K.alpha(render(strip_deep(s.operand(t["discr"]))), b), ",".join(edge)))
+                else:
+                    work.append(p)
+    pat = r"^(PartialEq::eq|cmp::impls::<impl std::cmp::PartialEq<&B> for &A>::eq|[\w:<> &]*::eq)\((.+), b'(\.\.?)'\) -> else$"
+    lits = sorted(m.group(3) for t in tests for m in [re.match(pat, t)] if m)
+    ok = target is not None and len(tests) == 2 and lits == [".", ".."]
+    ctx.ob("R-CLS", "Rsync::check_path:dot-segments-are-exactly-.-and-..", ok,
+           'Rsync::check_path answers DotSegments exactly for a segment equal to "." or ".."', where=b.loc, detail=sorted(tests))
